@@ -17,12 +17,14 @@ class Unknown(Exception):
 
 
 class BreakEx(Exception):
-    def __init__(self, value=()):
+    def __init__(self, value=(), label=None):
         self.value = value
+        self.label = label      # scope id of the loop that is left (None: facts without labels -> the innermost loop)
 
 
 class ContinueEx(Exception):
-    pass
+    def __init__(self, label=None):
+        self.label = label
 
 
 class ReturnEx(Exception):
@@ -86,6 +88,34 @@ def F32(v):
         return struct.unpack("f", struct.pack("f", float(v)))[0]
     except OverflowError:
         return float("inf") if v > 0 else float("-inf")
+
+
+class ScopeEnv(dict):
+    """Environment of a closure call: the closure's own bindings on top of the environment it captured. Variables of the
+    capturing function are read from and written to that environment (HIR ids are unique, so nothing can clash)."""
+
+    def __init__(self, parent):
+        dict.__init__(self)
+        self.parent = parent
+
+    def __contains__(self, k):
+        return dict.__contains__(self, k) or k in self.parent
+
+    def __getitem__(self, k):
+        if dict.__contains__(self, k):
+            return dict.__getitem__(self, k)
+        return self.parent[k]
+
+    def get(self, k, default=None):
+        if dict.__contains__(self, k):
+            return dict.__getitem__(self, k)
+        return self.parent.get(k, default)
+
+    def __setitem__(self, k, v):
+        if not dict.__contains__(self, k) and k in self.parent:
+            self.parent[k] = v
+        else:
+            dict.__setitem__(self, k, v)
 
 
 class Ref:
@@ -442,7 +472,10 @@ class Interp:
         if k == "Binary":
             a = self.ev(e["l"], env, depth)
             b = self.ev(e["r"], env, depth)
-            return self.binop(e["op"], a, b)
+            r_ = self.binop(e["op"], a, b)
+            if e.get("ty") == "f32" and isinstance(r_, float):
+                return F32(r_)                  # single precision arithmetic rounds after every operation
+            return r_
         if k == "Tuple":
             return tuple(self.ev(x, env, depth) for x in e["elems"])
         if k == "Array":
@@ -501,6 +534,8 @@ class Interp:
                 lo, hi = (-(1 << (bits - 1)), (1 << (bits - 1)) - 1) if t.startswith("i") else (0, (1 << bits) - 1)
                 if v != v:
                     return 0
+                if v in (float("inf"), float("-inf")):
+                    return hi if v > 0 else lo
                 return max(lo, min(hi, int(v)))           # float -> int saturates
             if isinstance(v, float) and t == "f32":
                 return F32(v)
@@ -518,18 +553,23 @@ class Interp:
         if k == "Return":
             raise ReturnEx(self.ev(e["e"], env, depth) if "e" in e else ())
         if k == "Break":
-            raise BreakEx(self.ev(e["e"], env, depth) if "e" in e else ())
+            raise BreakEx(self.ev(e["e"], env, depth) if "e" in e else (), e.get("label"))
         if k == "Loop":
+            mine = e.get("scope")
             for _ in range(self.max_loop):
                 try:
                     self.ev(e["body"], env, depth)
                 except BreakEx as b:
+                    if b.label is not None and mine is not None and b.label != mine:
+                        raise               # `break 'outer`: not this loop
                     return b.value
-                except ContinueEx:
+                except ContinueEx as c_:
+                    if c_.label is not None and mine is not None and c_.label != mine:
+                        raise
                     continue
             raise Unknown("loop does not end within %d iterations" % self.max_loop)
         if k == "Continue":
-            raise ContinueEx()
+            raise ContinueEx(e.get("label"))
         if k == "Index":
             base = self.ev(e["e"], env, depth)
             i = self.ev(e["i"], env, depth)
@@ -647,15 +687,24 @@ class Interp:
             raise Unknown("for over %r" % (itv,))
         if len(seq) > self.max_loop:
             raise Unknown("loop too long for a table")
+        mine = None
+        for n_ in _F.walk(e):
+            if isinstance(n_, dict) and n_.get("k") == "Loop":
+                mine = n_.get("scope")          # the desugared `loop` of this `for`
+                break
         for x in seq:
             env2 = env
             if not self.match_pat(pat, x, env2):
                 raise Unknown("loop pattern")
             try:
                 self.ev(body, env2, depth)
-            except BreakEx:
+            except BreakEx as b_:
+                if b_.label is not None and mine is not None and b_.label != mine:
+                    raise
                 break
-            except ContinueEx:
+            except ContinueEx as c_:
+                if c_.label is not None and mine is not None and c_.label != mine:
+                    raise
                 continue
         return ()
 
@@ -774,6 +823,15 @@ class Interp:
                 for kv in v:
                     hm.put(kv[0], kv[1])
                 return hm
+            if ty in ("alloc::string::String",) and all(isinstance(x, str) for x in v):
+                return "".join(v)
+            if ty.startswith("core::option::Option<") and "Vec<" in ty:
+                out = []
+                for x in v:
+                    if isinstance(x, Enum) and x.variant == "None":
+                        return x
+                    out.append(x.fields.get("0") if isinstance(x, Enum) and x.variant == "Some" else x)
+                return Enum("Option", "Some", {"0": out})
             if "Result<" in ty.split("Vec<")[0] and "Vec<" in ty:
                 out = []
                 for x in v:
@@ -800,6 +858,13 @@ class Interp:
         if gen.startswith("core::iter::traits::iterator::Iterator::") or gen.startswith("core::iter::traits::double_ended::DoubleEndedIterator::"):
             m = gen.rsplit("::", 1)[1]
             v = self.ev(args[0], env, depth)
+            if isinstance(v, Ref) and isinstance(v.get(), (list, tuple)):
+                v = v.get()
+            if isinstance(v, Enum) and v.adt in ("Range", "RangeInclusive") and isinstance(v.fields.get("start"), int) and isinstance(v.fields.get("end"), int):
+                hi_ = v.fields["end"] + (1 if v.adt == "RangeInclusive" else 0)
+                if hi_ - v.fields["start"] > 65536:
+                    raise Unknown("range too long for a table")
+                v = list(range(v.fields["start"], hi_))
             if not isinstance(v, (list, tuple)):
                 raise Unknown("iterator method %s on %r" % (m, v))
             v = list(v)
@@ -828,7 +893,7 @@ class Interp:
                 if m == "find_map":
                     return Enum("Option", "None")
                 return () if m == "for_each" else out_
-            if m in ("any", "all", "filter", "map", "position", "find", "take_while", "skip_while"):
+            if m in ("any", "all", "filter", "map", "position", "find"):
                 c = self.ev(args[1], env, depth)
                 if not isinstance(c, (PyClosure, PyFn)):
                     raise Unknown("iterator method %s without a closure" % m)
@@ -859,6 +924,69 @@ class Interp:
                 if not isinstance(o, (list, tuple)):
                     raise Unknown("zip with %r" % (o,))
                 return [(a_, b_) for a_, b_ in zip(v, o)]
+            if m in ("nth", "next", "last", "next_back"):
+                if m == "nth":
+                    k_ = self.ev(args[1], env, depth)
+                    return Enum("Option", "Some", {"0": v[k_]}) if isinstance(k_, int) and 0 <= k_ < len(v) else Enum("Option", "None")
+                if not v:
+                    return Enum("Option", "None")
+                return Enum("Option", "Some", {"0": v[0] if m == "next" else v[-1]})
+            if m in ("rposition", "take_while", "skip_while", "partition", "max_by_key", "min_by_key", "map_while"):
+                c_ = self.ev(args[1], env, depth)
+                if m == "rposition":
+                    for i_ in range(len(v) - 1, -1, -1):
+                        if self.truth(self.call_callable(c_, [v[i_]], depth)):
+                            return Enum("Option", "Some", {"0": i_})
+                    return Enum("Option", "None")
+                if m in ("take_while", "skip_while"):
+                    i_ = 0
+                    while i_ < len(v) and self.truth(self.call_callable(c_, [v[i_]], depth)):
+                        i_ += 1
+                    return v[:i_] if m == "take_while" else v[i_:]
+                if m == "map_while":
+                    out_ = []
+                    for x in v:
+                        r_ = self.call_callable(c_, [x], depth)
+                        if not (isinstance(r_, Enum) and r_.variant == "Some"):
+                            break
+                        out_.append(r_.fields.get("0"))
+                    return out_
+                if m == "partition":
+                    yes, no = [], []
+                    for x in v:
+                        (yes if self.truth(self.call_callable(c_, [x], depth)) else no).append(x)
+                    return (yes, no)
+                if not v:
+                    return Enum("Option", "None")
+                def ordkey2(x):
+                    x = x.get() if isinstance(x, Ref) else x
+                    if isinstance(x, (list, tuple)):
+                        return tuple(ordkey2(y) for y in x)
+                    if isinstance(x, bool):
+                        return int(x)
+                    if isinstance(x, (int, float, str)):
+                        return x
+                    raise Unknown("%s key %r" % (m, x))
+                ks = [ordkey2(self.call_callable(c_, [x], depth)) for x in v]
+                best = 0
+                for i_ in range(1, len(v)):
+                    if (m == "min_by_key" and ks[i_] < ks[best]) or (m == "max_by_key" and ks[i_] >= ks[best]):
+                        best = i_
+                return Enum("Option", "Some", {"0": v[best]})
+            if m == "unzip":
+                return ([x[0] for x in v], [x[1] for x in v])
+            if m == "flatten":
+                out_ = []
+                for x in v:
+                    x = x.get() if isinstance(x, Ref) else x
+                    if isinstance(x, Enum) and x.variant in ("Some", "None", "Ok", "Err"):
+                        if x.variant in ("Some", "Ok"):
+                            out_.append(x.fields.get("0"))
+                    elif isinstance(x, (list, tuple)):
+                        out_.extend(x)
+                    else:
+                        raise Unknown("flatten of %r" % (x,))
+                return out_
             if m == "chain":
                 o_ = self.ev(args[1], env, depth)
                 o_ = o_.get() if isinstance(o_, Ref) else o_
@@ -1220,6 +1348,9 @@ class Interp:
                             if fa.debug and "." not in t_ and t_[-1:].isdigit():
                                 t_ += ".0"
                             out.append(t_)
+                        elif isinstance(fa, FmtArg) and fa.debug and isinstance(fv, str):
+                            q_ = "'" if fa.ty == "char" else '"'
+                            out.append(q_ + fv.replace("\\", "\\\\").replace('"', '\\"').replace("\n", "\\n") + q_)
                         else:
                             out.append(fmt_value(fv))
                 return FmtArgs("".join(out))
@@ -1305,6 +1436,14 @@ class Interp:
                     except OverflowError:
                         return Enum("Result", "Ok", {"0": float("inf")})
                 return Enum("Result", "Err", {"0": Opaque("ParseFloatError")})
+            for k_ in INT_BITS:
+                if isinstance(v, str) and "Result<%s," % k_ in ty.replace("core::result::", ""):
+                    import re as _re
+                    bits = INT_BITS[k_]
+                    lo_, hi_ = (-(1 << (bits - 1)), (1 << (bits - 1)) - 1) if k_.startswith("i") else (0, (1 << bits) - 1)
+                    if _re.fullmatch(r"[+-]?\d+" if k_.startswith("i") else r"\+?\d+", v) and lo_ <= int(v) <= hi_:
+                        return Enum("Result", "Ok", {"0": int(v)})
+                    return Enum("Result", "Err", {"0": Opaque("ParseIntError")})
             raise Unknown("parse of %r as %s" % (v, ty))
         if gen.startswith(("core::f64::<impl f64>::", "core::f32::<impl f32>::", "std::f64::<impl f64>::", "std::f32::<impl f32>::")) and \
                 short(gen) in ("fract", "trunc", "floor", "ceil", "round", "abs", "signum", "is_sign_negative", "is_sign_positive", "powi", "sqrt", "min", "max", "mul_add", "recip", "copysign"):
@@ -1490,6 +1629,175 @@ class Interp:
                     base.append(fill if isinstance(fill, (bool, int, float, str)) else _c.deepcopy(fill))
                 return ()
             raise Unknown("resize of %r to %r" % (base, n_))
+        OPS = {"core::ops::arith::Add::add": "Add", "core::ops::arith::Sub::sub": "Sub", "core::ops::arith::Mul::mul": "Mul", "core::ops::arith::Div::div": "Div",
+               "core::ops::arith::Rem::rem": "Rem", "core::ops::bit::Shl::shl": "Shl", "core::ops::bit::Shr::shr": "Shr"}
+        if gen in OPS and len(args) == 2 and self.facts.bodies.get(cal) is None:
+            a0, b0 = self.ev(args[0], env, depth), self.ev(args[1], env, depth)
+            a0 = a0.get() if isinstance(a0, Ref) else a0
+            b0 = b0.get() if isinstance(b0, Ref) else b0
+            if isinstance(a0, str) and isinstance(b0, str) and gen.endswith("add"):
+                return a0 + b0                  # String + &str
+            ty_ = (e.get("ty") or "")
+            if isinstance(a0, (int, float)) and isinstance(b0, (int, float)) and not isinstance(a0, bool) and not isinstance(b0, bool):
+                if gen.endswith(("div", "rem")) and b0 == 0 and isinstance(a0, int) and isinstance(b0, int):
+                    raise Unknown("core::panicking: attempt to divide by zero")
+                r_ = self.binop(OPS[gen], a0, b0)
+                if ty_ in INT_BITS and isinstance(r_, int):
+                    bits = INT_BITS[ty_]
+                    lo_, hi_ = (-(1 << (bits - 1)), (1 << (bits - 1)) - 1) if ty_.startswith("i") else (0, (1 << bits) - 1)
+                    if not lo_ <= r_ <= hi_ and OPS[gen] in ("Add", "Sub", "Mul"):
+                        raise Unknown("core::panicking: attempt to %s with overflow" % OPS[gen].lower())
+                return F32(r_) if ty_ == "f32" and isinstance(r_, float) else r_
+            raise Unknown("%s on %r, %r" % (short(gen), a0, b0))
+        if gen == "core::cmp::Ord::clamp" and len(args) == 3:
+            v0, lo_, hi_ = [self.ev(a, env, depth) for a in args]
+            if all(isinstance(x, (int, float)) and not isinstance(x, bool) for x in (v0, lo_, hi_)):
+                if lo_ > hi_:
+                    raise Unknown("core::panicking: clamp with min > max")
+                return max(lo_, min(hi_, v0))
+            raise Unknown("clamp")
+        if gen in ("core::ops::range::RangeInclusive::<Idx>::new",):
+            return Enum("RangeInclusive", None, {"start": self.ev(args[0], env, depth), "end": self.ev(args[1], env, depth)})
+        if gen in ("core::mem::take", "core::mem::replace", "core::mem::swap"):
+            tgt = self.ev(args[0], env, depth)
+            if gen.endswith("swap"):
+                o_ = self.ev(args[1], env, depth)
+                a_ = tgt.get() if isinstance(tgt, Ref) else tgt
+                b_ = o_.get() if isinstance(o_, Ref) else o_
+                (tgt.set(b_) if isinstance(tgt, Ref) else self.assign(args[0], b_, env, depth))
+                (o_.set(a_) if isinstance(o_, Ref) else self.assign(args[1], a_, env, depth))
+                return ()
+            old = tgt.get() if isinstance(tgt, Ref) else tgt
+            new_ = self.ev(args[1], env, depth) if gen.endswith("replace") else self.default_of((e.get("ty") or ""), depth)
+            import copy as _c
+            keep = _c.copy(old) if isinstance(old, list) else old
+            if isinstance(tgt, Ref):
+                tgt.set(new_)
+            elif isinstance(old, list) and isinstance(new_, list):
+                old[:] = new_               # a Vec behind `&mut`: the caller sees the new contents
+            else:
+                self.assign(args[0], new_, env, depth)
+            return keep
+        if gen in ("core::slice::<impl [T]>::binary_search",):
+            base = self.ev(args[0], env, depth)
+            x = self.ev(args[1], env, depth)
+            base = base.get() if isinstance(base, Ref) else base
+            x = x.get() if isinstance(x, Ref) else x
+            if isinstance(base, (list, tuple)) and all(isinstance(y, (int, str)) for y in base):
+                # std's algorithm (also on unsorted input, where it can miss an element that is present)
+                size, lo_ = len(base), 0
+                if size == 0:
+                    return Enum("Result", "Err", {"0": 0})
+                while size > 1:
+                    half = size // 2
+                    mid = lo_ + half
+                    lo_ = lo_ if base[mid] > x else mid
+                    size -= half
+                if base[lo_] == x:
+                    return Enum("Result", "Ok", {"0": lo_})
+                return Enum("Result", "Err", {"0": lo_ + (1 if base[lo_] < x else 0)})
+            raise Unknown("binary_search on %r" % (base,))
+        if gen in ("core::slice::<impl [T]>::windows", "core::slice::<impl [T]>::chunks", "core::slice::<impl [T]>::concat", "core::slice::<impl [T]>::split_last"):
+            base = self.ev(args[0], env, depth)
+            base = base.get() if isinstance(base, Ref) else base
+            if not isinstance(base, (list, tuple)):
+                raise Unknown("%s on %r" % (short(gen), base))
+            m_ = short(gen)
+            if m_ == "concat":
+                return [y for x_ in base for y in x_]
+            if m_ == "split_last":
+                return Enum("Option", "Some", {"0": (base[-1], list(base[:-1]))}) if base else Enum("Option", "None")
+            k_ = self.ev(args[1], env, depth)
+            if not isinstance(k_, int) or k_ <= 0:
+                raise Unknown("core::panicking: window / chunk size must be non-zero")
+            if m_ == "windows":
+                return [list(base[i:i + k_]) for i in range(0, len(base) - k_ + 1)]
+            return [list(base[i:i + k_]) for i in range(0, len(base), k_)]
+        if gen.startswith(("core::str::<impl str>::", "alloc::str::<impl str>::")) and short(gen) in ("split", "trim", "trim_start", "trim_end", "replace", "lines", "to_uppercase",
+                                                                                                       "to_lowercase", "split_whitespace", "char_indices", "to_ascii_uppercase", "to_ascii_lowercase",
+                                                                                                       "eq_ignore_ascii_case", "repeat", "splitn"):
+            m_ = short(gen)
+            v0 = self.ev(args[0], env, depth)
+            v0 = v0.get() if isinstance(v0, Ref) else v0
+            rest_ = [self.ev(a, env, depth) for a in args[1:]]
+            rest_ = [x.get() if isinstance(x, Ref) else x for x in rest_]
+            if not isinstance(v0, str):
+                raise Unknown("%s on %r" % (m_, v0))
+            if m_ == "split" and isinstance(rest_[0], str) and rest_[0] != "":
+                return v0.split(rest_[0])
+            if m_ in ("trim", "trim_start", "trim_end"):
+                return {"trim": v0.strip(), "trim_start": v0.lstrip(), "trim_end": v0.rstrip()}[m_]
+            if m_ == "replace" and all(isinstance(x, str) for x in rest_[:2]) and rest_[0] != "":
+                return v0.replace(rest_[0], rest_[1])
+            if m_ == "lines":
+                return [l_[:-1] if l_.endswith("\r") else l_ for l_ in (v0[:-1] if v0.endswith("\n") else v0).split("\n")] if v0 else []
+            if m_ in ("to_uppercase", "to_ascii_uppercase", "to_lowercase", "to_ascii_lowercase") and v0.isascii():
+                return v0.upper() if "upper" in m_ else v0.lower()
+            if m_ == "split_whitespace":
+                return v0.split()
+            if m_ == "char_indices":
+                out_, off = [], 0
+                for ch in v0:
+                    out_.append((off, ch))
+                    off += len(ch.encode("utf-8"))
+                return out_
+            if m_ == "eq_ignore_ascii_case" and isinstance(rest_[0], str):
+                return v0.lower() == rest_[0].lower() if v0.isascii() and rest_[0].isascii() else v0 == rest_[0]
+            if m_ == "repeat" and isinstance(rest_[0], int):
+                return v0 * rest_[0]
+            raise Unknown("%s arguments" % m_)
+        if gen.startswith("core::num::<impl ") and short(gen) in ("count_ones", "count_zeros", "leading_zeros", "trailing_zeros", "is_power_of_two", "saturating_add", "saturating_sub",
+                                                                  "saturating_mul", "rem_euclid", "div_euclid", "abs_diff", "signum", "is_negative", "is_positive", "swap_bytes",
+                                                                  "overflowing_add", "overflowing_sub", "overflowing_mul", "div_ceil", "ilog2", "ilog10", "isqrt"):
+            m_ = short(gen)
+            ty_ = gen[len("core::num::<impl "):].split(">")[0]
+            bits = INT_BITS.get(ty_, 64)
+            signed = ty_.startswith("i")
+            lo_, hi_ = (-(1 << (bits - 1)), (1 << (bits - 1)) - 1) if signed else (0, (1 << bits) - 1)
+            xs = [self.ev(a, env, depth) for a in args]
+            xs = [x.get() if isinstance(x, Ref) else x for x in xs]
+            if not all(isinstance(x, int) and not isinstance(x, bool) for x in xs):
+                raise Unknown("%s on %r" % (m_, xs))
+            a0 = xs[0]
+            u0 = a0 & ((1 << bits) - 1)
+            wrap_ = lambda v: ((v & ((1 << bits) - 1)) - (1 << bits)) if signed and (v & ((1 << bits) - 1)) > hi_ else (v & ((1 << bits) - 1))
+            if m_ == "count_ones":
+                return bin(u0).count("1")
+            if m_ == "count_zeros":
+                return bits - bin(u0).count("1")
+            if m_ == "leading_zeros":
+                return bits - u0.bit_length()
+            if m_ == "trailing_zeros":
+                return bits if u0 == 0 else (u0 & -u0).bit_length() - 1
+            if m_ == "is_power_of_two":
+                return a0 > 0 and (a0 & (a0 - 1)) == 0
+            if m_.startswith("saturating_"):
+                r_ = {"add": a0 + xs[1], "sub": a0 - xs[1], "mul": a0 * xs[1]}[m_[11:]]
+                return max(lo_, min(hi_, r_))
+            if m_.startswith("overflowing_"):
+                r_ = {"add": a0 + xs[1], "sub": a0 - xs[1], "mul": a0 * xs[1]}[m_[12:]]
+                return (wrap_(r_), not lo_ <= r_ <= hi_)
+            if m_ in ("rem_euclid", "div_euclid", "div_ceil"):
+                if xs[1] == 0:
+                    raise Unknown("core::panicking: attempt to divide by zero")
+                if m_ == "rem_euclid":
+                    return a0 % abs(xs[1])
+                if m_ == "div_euclid":
+                    q_ = (a0 - a0 % abs(xs[1])) // abs(xs[1])
+                    return q_ if xs[1] > 0 else -q_
+                return -((-a0) // xs[1])
+            if m_ == "abs_diff":
+                return abs(a0 - xs[1])
+            if m_ == "signum":
+                return (a0 > 0) - (a0 < 0)
+            if m_ in ("is_negative", "is_positive"):
+                return a0 < 0 if m_ == "is_negative" else a0 > 0
+            if m_ in ("ilog2", "ilog10", "isqrt"):
+                if a0 <= 0 and m_ != "isqrt":
+                    raise Unknown("core::panicking: argument of integer logarithm must be positive")
+                import math as _m
+                return a0.bit_length() - 1 if m_ == "ilog2" else (len(str(a0)) - 1 if m_ == "ilog10" else _m.isqrt(a0))
+            raise Unknown(m_)
         if gen in ("core::iter::sources::once::once", "core::iter::sources::empty::empty", "core::iter::sources::repeat_n::repeat_n"):
             if gen.endswith("empty"):
                 return []
@@ -1647,6 +1955,11 @@ class Interp:
             nm = short(c.path)
             if nm in ("Some", "Ok", "Err") and len(vals) == 1:
                 return Enum("Option" if nm == "Some" else "Result", nm, {"0": vals[0]})
+            if c.path in ("core::convert::From::from", "core::convert::Into::into", "alloc::string::ToString::to_string", "alloc::borrow::ToOwned::to_owned",
+                          "core::clone::Clone::clone", "alloc::str::<impl alloc::borrow::ToOwned for str>::to_owned", "alloc::string::String::from") and len(vals) == 1:
+                v0 = vals[0].get() if isinstance(vals[0], Ref) else vals[0]
+                if isinstance(v0, (str, int, float, bool)):
+                    return str(v0) if (c.path.endswith("to_string") and not isinstance(v0, str) and not isinstance(v0, bool)) else v0
             raise Unknown("call of function value " + c.path)
         raise Unknown("call of %r" % (c,))
 
@@ -1799,7 +2112,7 @@ class Interp:
         body = self.facts.bodies.get(c.path)
         if body is None or depth >= self.max_depth:
             raise Unknown("closure body " + str(c.path))
-        env = dict(c.env)
+        env = ScopeEnv(c.env)
         params = body.get("params", [])[1:]
         if len(params) != len(vals):
             raise Unknown("closure arity")
